@@ -21,6 +21,7 @@ func init() {
 		rules.FullRangeTests(p, r, "C11-e")
 		rules.SymmetricEquality(p, r, "C11-f")
 		rules.PortSetEncapsulation(p, r, "C11-g")
+		rules.AllowAllResetsMap(p, r, "C11-c-reset")
 		r.Assume("interval.CanonicalSet.Union/Intersect/Subtract/Copy return fresh sets; AddInterval/AddHole write their receiver (read from np-guard/models v0.5.2)")
 		r.Assume("convention of the package, used as the contract: methods with results are read-only, methods without results mutate the receiver")
 	})
